@@ -26,7 +26,7 @@ def shapeOKList (cfg : Cfg) : List GoVal → Bool
   | x :: xs => shapeOK cfg x && shapeOKList cfg xs
 def shapeOKPairs (cfg : Cfg) : List (GoVal × GoVal) → Bool
   | [] => true
-  | (k, v) :: r => (cfg.pyDict || mapKeyPlain cfg.su k) && shapeOK cfg k && shapeOK cfg v && shapeOKPairs cfg r
+  | (k, v) :: r => (cfg.pyDict || mapKeyPlain cfg.su true k) && shapeOK cfg k && shapeOK cfg v && shapeOKPairs cfg r
 end
 
 /-- Pairwise-different keys, as `freshOverB` wants them. -/
@@ -56,7 +56,7 @@ theorem wfResPairs_keys {c : Cfg} {u : Bool} : (kvs : Entries) → wfResPairs c 
     · exact wfResPairs_keys kvs h.2 kv hkv
 
 theorem shapeOKPairs_plain {cfg : Cfg} : (kvs : Entries) → cfg.pyDict = false → shapeOKPairs cfg kvs = true →
-    ∀ kv ∈ kvs, mapKeyPlain cfg.su kv.1 = true
+    ∀ kv ∈ kvs, mapKeyPlain cfg.su true kv.1 = true
   | [], _, _ => by simp
   | (k, v) :: kvs, hpd, h => by
     simp only [shapeOKPairs, Bool.and_eq_true, hpd, Bool.false_or] at h
@@ -68,10 +68,13 @@ theorem shapeOKPairs_plain {cfg : Cfg} : (kvs : Entries) → cfg.pyDict = false 
 section bridge
 variable {mc : MCfg}
 
+/-- No hook: a Ref stays a Ref. -/
+theorem refRho : (true = true → ∀ p : GoVal, GoVal.ref p = .ref p) := fun _ _ => rfl
+
 mutual
 /-- A hashable machine value represents only key-like values. -/
-theorem keyLike_of_rep {h : List HObj} {r : GoVal} : (k : GoVal) → Rep mc h r k → hashable r = true →
-    wfRes mc.cfg false k = true → keyLike mc.cfg.su k = true
+theorem keyLike_of_rep {h : List HObj} {r : GoVal} : (k : GoVal) → Rep mc GoVal.ref h r k → hashable r = true →
+    wfRes mc.cfg false k = true → keyLike mc.cfg.su true k = true
   | .none, _, _, _ | .bool _, _, _, _ | .int _, _, _, _ | .float _, _, _, _ | .str _, _, _, _ | .bytes _, _, _, _
   | .cls _ _, _, _, _ | .big _ _, _, _, _ => by simp [keyLike]
   | .bytestr _, _, _, hw => by simpa [keyLike, wfRes] using hw
@@ -90,8 +93,8 @@ theorem keyLike_of_rep {h : List HObj} {r : GoVal} : (k : GoVal) → Rep mc h r 
       simp only [hashable, hashTree, Option.isSome_map] at hh; exact hh
     exact keyLikeList_of_rep args hl this hw
   | .ref p, hr, hh, hw => by
-    simp only [Rep] at hr; obtain ⟨q, rfl, hp⟩ := hr
-    simp only [keyLike]
+    simp only [Rep] at hr; obtain ⟨q, rfl, _, hp⟩ := hr
+    simp only [keyLike, Bool.true_and]
     simp only [wfRes] at hw
     have : hashable q = true := by
       simp only [hashable, hashTree, Option.isSome_map] at hh ⊢; exact hh
@@ -108,8 +111,8 @@ theorem keyLike_of_rep {h : List HObj} {r : GoVal} : (k : GoVal) → Rep mc h r 
   | .nil, _, _, hw => by simp [wfRes] at hw
   | .uint _, hr, _, _ | .complex _ _, hr, _, _ | .user _, hr, _, _ | .mark, hr, _, _ | .href _, hr, _, _ | .cycle, hr, _, _ => by
     simp [Rep] at hr
-theorem keyLikeList_of_rep {h : List HObj} : {rs : List GoVal} → (xs : List GoVal) → RepList mc h rs xs →
-    (hashTreeList rs).isSome = true → wfResList mc.cfg false xs = true → keyLikeList mc.cfg.su xs = true
+theorem keyLikeList_of_rep {h : List HObj} : {rs : List GoVal} → (xs : List GoVal) → RepList mc GoVal.ref h rs xs →
+    (hashTreeList rs).isSome = true → wfResList mc.cfg false xs = true → keyLikeList mc.cfg.su true xs = true
   | [], [], _, _, _ => rfl
   | [], _ :: _, hr, _, _ => by simp [RepList] at hr
   | _ :: _, [], hr, _, _ => by simp [RepList] at hr
@@ -128,8 +131,8 @@ theorem keyLikeList_of_rep {h : List HObj} : {rs : List GoVal} → (xs : List Go
     exact ⟨keyLike_of_rep x hr.1 h1.1 hw.1, keyLikeList_of_rep xs hr.2 h1.2 hw.2⟩
 end
 
-theorem RepPairs.mem_keys {h : List HObj} : {es kvs : Entries} → RepPairs mc h es kvs →
-    ∀ kv ∈ kvs, ∃ e ∈ es, Rep mc h e.1 kv.1
+theorem RepPairs.mem_keys {h : List HObj} : {es kvs : Entries} → RepPairs mc GoVal.ref h es kvs →
+    ∀ kv ∈ kvs, ∃ e ∈ es, Rep mc GoVal.ref h e.1 kv.1
   | [], [], _ => by simp
   | [], _ :: _, hr => by simp [RepPairs] at hr
   | _ :: _, [], hr => by simp [RepPairs] at hr
@@ -142,8 +145,8 @@ theorem RepPairs.mem_keys {h : List HObj} : {es kvs : Entries} → RepPairs mc h
       exact ⟨e, by simp [he], hre⟩
 
 /-- Pairwise-different decoded keys are pairwise-different encoded keys (Dict mode). -/
-theorem pairwise_keys_of_rep {h : List HObj} : {es kvs : Entries} → RepPairs mc h es kvs →
-    (∀ kv ∈ kvs, keyLike mc.cfg.su kv.1 = true) →
+theorem pairwise_keys_of_rep {h : List HObj} : {es kvs : Entries} → RepPairs mc GoVal.ref h es kvs →
+    (∀ kv ∈ kvs, keyLike mc.cfg.su true kv.1 = true) →
     es.Pairwise (fun a b => goEqual b.1 a.1 = false) → (kvs.map (·.1)).Pairwise (fun a b => goEqual b a = false)
   | [], [], _, _, _ => by simp
   | [], _ :: _, hr, _, _ => by simp [RepPairs] at hr
@@ -156,14 +159,14 @@ theorem pairwise_keys_of_rep {h : List HObj} : {es kvs : Entries} → RepPairs m
     intro k' hk'
     obtain ⟨kv', hkv', rfl⟩ := List.mem_map.mp hk'
     obtain ⟨e, he, hre⟩ := RepPairs.mem_keys hr.2.2 kv' hkv'
-    rw [← Rep.goEqual_eq hre hr.1 (hkl kv' (by simp [hkv'])) (hkl (k, v) (by simp))]
+    rw [← Rep.goEqual_eq refRho hre hr.1 (hkl kv' (by simp [hkv'])) (hkl (k, v) (by simp))]
     exact hp.1 e he
 
 mutual
 /-- **The bridge.** A value represented by a machine value in a heap with the decoder's key invariant,
     of documented types (`wfRes`) and of encodable shape, satisfies the hypotheses of the round trip. -/
 theorem canon_of_rep {h : List HObj} (hk : ∀ o ∈ h, EntriesOK o.kind o.kvs) {r : GoVal} :
-    (v : GoVal) → Rep mc h r v → wfRes mc.cfg false v = true → shapeOK mc.cfg v = true → canon mc.cfg v = true
+    (v : GoVal) → Rep mc GoVal.ref h r v → wfRes mc.cfg false v = true → shapeOK mc.cfg v = true → canon mc.cfg true v = true
   | .none, _, _, _ | .bool _, _, _, _ | .float _, _, _, _ | .big _ _, _, _, _ => by simp [canon]
   | .nil, _, hw, _ => by simp [wfRes] at hw
   | .int i, _, hw, _ => by simpa [canon, wfRes] using hw
@@ -184,7 +187,7 @@ theorem canon_of_rep {h : List HObj} (hk : ∀ o ∈ h, EntriesOK o.kind o.kvs) 
     simp only [canon, Bool.and_eq_true]
     exact ⟨hs.1, canonList_of_rep hk args hl hw hs.2⟩
   | .ref p, hr, hw, hs => by
-    simp only [Rep] at hr; obtain ⟨q, rfl, hp⟩ := hr
+    simp only [Rep] at hr; obtain ⟨q, rfl, _, hp⟩ := hr
     simp only [canon]; simp only [wfRes] at hw; simp only [shapeOK] at hs
     exact canon_of_rep hk p hp hw hs
   | .map kvs, hr, hw, hs => by
@@ -202,7 +205,7 @@ theorem canon_of_rep {h : List HObj} (hk : ∀ o ∈ h, EntriesOK o.kind o.kvs) 
   | .uint _, hr, _, _ | .complex _ _, hr, _, _ | .user _, hr, _, _ | .mark, hr, _, _ | .href _, hr, _, _ | .cycle, hr, _, _ => by
     simp [Rep] at hr
 theorem canonList_of_rep {h : List HObj} (hk : ∀ o ∈ h, EntriesOK o.kind o.kvs) : {rs : List GoVal} → (xs : List GoVal) →
-    RepList mc h rs xs → wfResList mc.cfg false xs = true → shapeOKList mc.cfg xs = true → canonList mc.cfg xs = true
+    RepList mc GoVal.ref h rs xs → wfResList mc.cfg false xs = true → shapeOKList mc.cfg xs = true → canonList mc.cfg true xs = true
   | [], [], _, _, _ => rfl
   | [], _ :: _, hr, _, _ => by simp [RepList] at hr
   | _ :: _, [], hr, _, _ => by simp [RepList] at hr
@@ -213,7 +216,7 @@ theorem canonList_of_rep {h : List HObj} (hk : ∀ o ∈ h, EntriesOK o.kind o.k
     simp only [canonList, Bool.and_eq_true]
     exact ⟨canon_of_rep hk x hr.1 hw.1 hs.1, canonList_of_rep hk xs hr.2 hw.2 hs.2⟩
 theorem canonPairs_of_rep {h : List HObj} (hk : ∀ o ∈ h, EntriesOK o.kind o.kvs) : {es : Entries} → (kvs : Entries) →
-    RepPairs mc h es kvs → wfResPairs mc.cfg false kvs = true → shapeOKPairs mc.cfg kvs = true → canonPairs mc.cfg kvs = true
+    RepPairs mc GoVal.ref h es kvs → wfResPairs mc.cfg false kvs = true → shapeOKPairs mc.cfg kvs = true → canonPairs mc.cfg true kvs = true
   | [], [], _, _, _ => rfl
   | [], _ :: _, hr, _, _ => by simp [RepPairs] at hr
   | _ :: _, [], hr, _, _ => by simp [RepPairs] at hr
@@ -225,8 +228,8 @@ theorem canonPairs_of_rep {h : List HObj} (hk : ∀ o ∈ h, EntriesOK o.kind o.
     exact ⟨⟨canon_of_rep hk k hr.1 hw.1.1 hs.1.1.2, canon_of_rep hk v hr.2.1 hw.1.2 hs.1.2⟩,
       canonPairs_of_rep hk kvs hr.2.2 hw.2 hs.2⟩
 theorem keysOK_of_rep {h : List HObj} (hk : ∀ o ∈ h, EntriesOK o.kind o.kvs) {id : Nat} {es : Entries} (kvs : Entries)
-    (hg : h[id]? = some { kind := dictKind mc.cfg, kvs := es }) (hp : RepPairs mc h es kvs)
-    (hw : wfResPairs mc.cfg false kvs = true) (hs : shapeOKPairs mc.cfg kvs = true) : keysOK mc.cfg kvs = true := by
+    (hg : h[id]? = some { kind := dictKind mc.cfg, kvs := es }) (hp : RepPairs mc GoVal.ref h es kvs)
+    (hw : wfResPairs mc.cfg false kvs = true) (hs : shapeOKPairs mc.cfg kvs = true) : keysOK mc.cfg true kvs = true := by
   have heo := hk _ (List.mem_of_getElem? hg)
   simp only at heo
   have hwk : ∀ kv ∈ kvs, wfRes mc.cfg false kv.1 = true := wfResPairs_keys kvs hw
@@ -234,7 +237,7 @@ theorem keysOK_of_rep {h : List HObj} (hk : ∀ o ∈ h, EntriesOK o.kind o.kvs)
   unfold dictKind at heo
   by_cases hpd : mc.cfg.pyDict = true
   · simp only [hpd, if_true, EntriesOK] at heo ⊢
-    have hkl : ∀ kv ∈ kvs, keyLike mc.cfg.su kv.1 = true := by
+    have hkl : ∀ kv ∈ kvs, keyLike mc.cfg.su true kv.1 = true := by
       intro kv hkv
       obtain ⟨e, he, hre⟩ := RepPairs.mem_keys hp kv hkv
       exact keyLike_of_rep kv.1 hre (heo.1 e he) (hwk kv hkv)
@@ -242,12 +245,12 @@ theorem keysOK_of_rep {h : List HObj} (hk : ∀ o ∈ h, EntriesOK o.kind o.kvs)
     refine ⟨?_, freshOverB_of_pairwise _ [] (by simpa using pairwise_keys_of_rep hp hkl heo.2)⟩
     intro kv hkv
     obtain ⟨e, he, hre⟩ := RepPairs.mem_keys hp kv hkv
-    exact ⟨hkl kv hkv, by rw [← hre.hashable_eq (hkl kv hkv)]; exact heo.1 e he⟩
+    exact ⟨hkl kv hkv, by rw [← Rep.hashable_eq refRho hre (hkl kv hkv)]; exact heo.1 e he⟩
   · have hpd' : mc.cfg.pyDict = false := by simpa using hpd
     simp only [hpd', Bool.false_eq_true, if_false, EntriesOK] at heo ⊢
-    have hpl : ∀ kv ∈ kvs, mapKeyPlain mc.cfg.su kv.1 = true := shapeOKPairs_plain kvs hpd' hs
+    have hpl : ∀ kv ∈ kvs, mapKeyPlain mc.cfg.su true kv.1 = true := shapeOKPairs_plain kvs hpd' hs
     have heq : es.map (·.1) = kvs.map (·.1) :=
-      RepList.eq_of_plain hp.keys (fun k hk' => by
+      RepList.eq_of_plain refRho hp.keys (fun k hk' => by
         obtain ⟨kv, hkv, rfl⟩ := List.mem_map.mp hk'; exact hpl kv hkv)
     simp only [Bool.and_eq_true, List.all_eq_true]
     refine ⟨hpl, freshOverB_of_pairwise _ [] ?_⟩
